@@ -45,7 +45,7 @@ def run(ck, replay=None):
                       'the table.  Every history is rendered to one murex program (one function per call, blocks as if / switch / foreach / '
                       '${} - one program per block kind; `config set` at position j writes "vj"), executed by the real interpreter, and after '
                       'every operation `config get` of both options is compared with the table.  Options: a pair defined per program with '
-                      '`config define` (free strings; session-level and function-level bodies), and the built-in pair http user-agent '
+                      '`config define` (free strings; session-level and function-level bodies), a pair of non-global options under two different apps, and the built-in pair http user-agent '
                       '(non-global) / shell max-suggestions (global).  non-trivial = at least one call or block and at least two settings; '
                       'distinct = different (body level, option pair, history, block kind).')
     ck.assumptions += ['a program that runs into its 20 s limit is run again on its own three times (120 s limit); only a hang that shows again is reported (a stall on a loaded machine is not a hang)']
@@ -60,6 +60,14 @@ def run(ck, replay=None):
         cases = L.gen_cases(ck, 'cfg', top, [], ['G', 'L'], ['G'], maxlen, 3, 'custom-' + top)
         n += L.run_table(ck, cases, runner, cfgmap_fn=custom_map, valtext=CUSTOM_TEXT, prelude_fn=custom_prelude, tag='cu' + top[0],
                          kinds='all' if quick else 'some')
+    # two non-global options that live under different apps (the scope's override table is keyed by app first)
+    def two_apps(cid):
+        return {'L': {'app': 'verif%d' % cid, 'key': 'l', 'val': lambda j: 'v%d' % j},
+                'M': {'app': 'verifm%d' % cid, 'key': 'm', 'val': lambda j: 'v%d' % j}}
+    cases = L.gen_cases(ck, 'cfg', 'function', [], ['L', 'M'], [], maxlen, 3, 'twoapps-function')
+    n += L.run_table(ck, cases, runner, cfgmap_fn=two_apps, valtext={'L': CUSTOM_TEXT['L'], 'M': CUSTOM_TEXT['L']},
+                     prelude_fn=lambda cid, cm: [DEFINE % (cm['L']['app'], 'l', 'false'), DEFINE % (cm['M']['app'], 'm', 'false')],
+                     tag='cu2', kinds='all' if quick else 'some')
     # built-in options: function-level bodies only (a session-level setting would leak into every later program)
     ua, ms = builtin_defaults(ck)
     bmap = {'G': {'app': 'shell', 'key': 'max-suggestions', 'val': lambda j: str(100 + j)},
